@@ -438,6 +438,7 @@ pub struct Scn14 {
     /// 0 reconnect (unlimited attempts), 1 retry (max_attempts = attempts + 1)
     pub via: u8,
     pub initial_us: u64,
+    /// multiplier in thousandths (1010 = 1.01)
     pub mult_tenths: u32,
     pub max_us: Option<u64>,
     pub rf_eighths: u32,
@@ -454,7 +455,7 @@ pub fn gen14(rng: &mut Rng, tier: Tier) -> Scn14 {
     let initial_us = *rng.pick(&[0u64, 1_000, 100_000, 100_000, 1_000_000, 3_600_000_000, 86_400_000_000]);
     let max_us = *rng.pick(&[None, Some(50_000u64), Some(5_000_000), Some(5_000_000), Some(3_600_000_000), Some(30 * 86_400_000_000)]);
     // reconnect's exponential constructors always use multiplier 2 and a cap
-    let mult_tenths = if via == 0 { 20 } else { *rng.pick(&[10u32, 15, 20, 20, 30, 100]) };
+    let mult_tenths = if via == 0 { 2000 } else { *rng.pick(&[1000u32, 1001, 1010, 1020, 1500, 2000, 2000, 3000, 10_000]) };
     let max_us = if via == 0 && kind != 2 { Some(max_us.unwrap_or(5_000_000)) } else { max_us };
     let attempts = match tier {
         Tier::Quick => *rng.pick(&[20u32, 80, 80, 200, 1100]),
@@ -464,21 +465,21 @@ pub fn gen14(rng: &mut Rng, tier: Tier) -> Scn14 {
 }
 
 pub fn valid14(s: &Scn14) -> bool {
-    s.via <= 1 && s.kind <= 2 && s.initial_us <= 86_400_000_000 && s.mult_tenths >= 10 && s.mult_tenths <= 100 && s.rf_eighths <= 8 && s.attempts >= 1 && s.attempts <= 10_000 && (s.via == 1 || s.kind == 2 || s.max_us.is_some()) && (s.via == 1 || s.mult_tenths == 20)
+    s.via <= 1 && s.kind <= 2 && s.initial_us <= 86_400_000_000 && s.mult_tenths >= 1000 && s.mult_tenths <= 10_000 && s.rf_eighths <= 8 && s.attempts >= 1 && s.attempts <= 10_000 && (s.via == 1 || s.kind == 2 || s.max_us.is_some()) && (s.via == 1 || s.mult_tenths == 2000)
 }
 
 fn build_backoff(s: &Scn14) -> Arc<dyn IntervalFunction> {
     let init = Duration::from_micros(s.initial_us);
     match s.kind {
         0 => {
-            let mut b = ExponentialBackoff::new(init).multiplier(s.mult_tenths as f64 / 10.0);
+            let mut b = ExponentialBackoff::new(init).multiplier(s.mult_tenths as f64 / 1000.0);
             if let Some(m) = s.max_us {
                 b = b.max_interval(Duration::from_micros(m));
             }
             Arc::new(b)
         }
         1 => {
-            let mut b = ExponentialRandomBackoff::new(init, s.rf_eighths as f64 / 8.0).multiplier(s.mult_tenths as f64 / 10.0);
+            let mut b = ExponentialRandomBackoff::new(init, s.rf_eighths as f64 / 8.0).multiplier(s.mult_tenths as f64 / 1000.0);
             if let Some(m) = s.max_us {
                 b = b.max_interval(Duration::from_micros(m));
             }
@@ -501,7 +502,7 @@ fn expected_secs(s: &Scn14, idx: u64) -> f64 {
     if s.kind == 2 {
         return init;
     }
-    let m = s.mult_tenths as f64 / 10.0;
+    let m = s.mult_tenths as f64 / 1000.0;
     let raw = if init == 0.0 { 0.0 } else { init * m.powf(idx as f64) };
     match s.max_us {
         Some(c) => raw.min(c as f64 / 1e6),
@@ -679,7 +680,7 @@ impl Prop for C14 {
         let mut probed = 0u64;
         let attempts: Vec<usize> = vec![0, 1, 10, 67, 68, 100, 1_000, 10_000, 100_000, 1 << 20, (i32::MAX as usize) - 1, i32::MAX as usize, (i32::MAX as usize) + 1, u32::MAX as usize, (u32::MAX as usize) + 1, usize::MAX - 1, usize::MAX];
         for initial_us in [0u64, 1_000, 100_000, 1_000_000, 86_400_000_000] {
-            for mult_tenths in [10u32, 15, 20, 100] {
+            for mult_tenths in [1000u32, 1010, 1500, 2000, 10_000] {
                 for max_us in [None, Some(50_000u64), Some(5_000_000), Some(30 * 86_400_000_000)] {
                     for kind in [0u8, 1] {
                         let s = Scn14 { via: 1, initial_us, mult_tenths, max_us, rf_eighths: 4, kind, attempts: 1 };
